@@ -110,6 +110,11 @@ func (w *ShardWriter) WriteShardBinary(shardID, ownerID uint64, points [][]byte)
 
 // dial returns a connection to a single node in the cluster.
 func (w *ShardWriter) dial(nodeID uint64) (net.Conn, error) {
+	if w.pool == nil {
+		// Closed: hinted handoff or a write still in flight may get here while
+		// the node shuts down.
+		return nil, ErrClientClosed
+	}
 	// If we don't have a connection pool for that addr yet, create one
 	_, ok := w.pool.getPool(nodeID)
 	if !ok {
